@@ -4,7 +4,8 @@ package txt
 
 // Machine-checked contracts for package txt (comment-only; see klog/contracts_verif.go).
 
-// blank(l): the line consists of spaces and tabs only. (*Line).IsBlank is the definition (trusted contract).
+// blank(l): the line consists of spaces and tabs only. The symbol is uninterpreted; (*Line).IsBlank gives it its
+// meaning (`defines`), and IsBlank's body is verified against the byte-level characterisation.
 //@ spec blank(l Line) bool
 
 // A block contains at least one line that is not blank ("exactly a single sequence of significant lines").
@@ -15,8 +16,9 @@ package txt
 //@ type block invariant exists(i, 0, len(self.lines), !blank(self.lines[i])) && ichained(self.lines)
 
 //@ func (*Line).IsBlank
-//@ trusted
-//@ ensures result == blank(*l)
+//@ defines result == blank(*l)
+//@ ensures result == forall(k, 0, len(l.Text), l.Text[k] == 32 || l.Text[k] == 9)
+//@ loop 1 invariant forall(k, 0, rangepos(), l.Text[k] == 32 || l.Text[k] == 9)
 
 // ---------------------------------------------------------------------------------------------
 // line.go — a Line splits its raw text into Text and LineEnding without losing a byte (property C08):
@@ -28,11 +30,13 @@ package txt
 //@ func splitOffLineEnding
 //@ ensures same(result0, text[:len(text)-len(result1)]) && endingOf(text, result1)
 //@ ensures implies(len(text) >= 1 && text[len(text)-1] == 10, len(result1) >= 1)
+//@ ensures implies(len(text) >= 2 && text[len(text)-2] == 13 && text[len(text)-1] == 10, len(result1) == 2)
 //@ loop 1 invariant implies(rangeindex >= 0, !(len(text) >= 2 && text[len(text)-2] == 13 && text[len(text)-1] == 10)) && implies(rangeindex >= 1, !(len(text) >= 1 && text[len(text)-1] == 10))
 
 //@ func NewLineFromString
 //@ ensures same(result.Text, rawLineText[:len(rawLineText)-len(result.LineEnding)]) && endingOf(rawLineText, result.LineEnding)
 //@ ensures implies(len(rawLineText) >= 1 && rawLineText[len(rawLineText)-1] == 10, len(result.LineEnding) >= 1)
+//@ ensures implies(len(rawLineText) >= 2 && rawLineText[len(rawLineText)-2] == 13 && rawLineText[len(rawLineText)-1] == 10, len(result.LineEnding) == 2)
 
 
 //@ func SubRune
@@ -116,12 +120,26 @@ package txt
 //@ spec chained(ls []Line, text string) bool = forall(k, 0, len(ls), samearr(ls[k].Text, text) && stroff(ls[k].Text) >= stroff(text) && endAt(text, stroff(ls[k].Text) - stroff(text) + len(ls[k].Text), ls[k].LineEnding)) && forall(k, 0, len(ls)-1, stroff(ls[k+1].Text) == lineEnd(ls[k]))
 //@ spec tiles(ls []Line, text string, n int) bool = chained(ls, text) && implies(len(ls) > 0, stroff(ls[0].Text) == stroff(text) && lineEnd(ls[len(ls)-1]) == stroff(text) + n) && implies(len(ls) == 0, n == 0)
 
+// nb(text, k): the byte at k is significant: neither a space, a tab nor part of a line ending.
+// blankOnly(text): the text consists of blank lines only.
+//@ spec nb(text string, k int) bool = text[k] != 32 && text[k] != 9 && text[k] != 10 && !(text[k] == 13 && k+1 < len(text) && text[k+1] == 10)
+//@ spec blankOnly(text string) bool = forall(k, 0, len(text), !nb(text, k))
+
 // ParseBlock: every slice expression stays within the text; the consumed byte count never exceeds the text;
 // the lines of the returned block tile the consumed prefix of the text.
 //@ func ParseBlock
 //@ ensures 0 <= result1 && result1 <= len(text)
 //@ ensures implies(nonnil(result0), typeis(result0, *block) && fresh(result0) && result0.(*block).precedingLineCount == precedingLineCount)
 //@ ensures implies(nonnil(result0), tiles(result0.(*block).lines, text, result1) && len(result0.(*block).lines) >= 1)
+// nothing significant is skipped: without a block the whole text was consumed and is blank; a block ends at the end of
+// the text or right before a significant byte; only the empty text consumes nothing
+//@ ensures implies(isnil(result0), result1 == len(text) && blankOnly(text))
+//@ ensures implies(nonnil(result0) && result1 < len(text), exists(k, result1, len(text), nb(text, k)))
+//@ ensures implies(result1 == 0, len(text) == 0)
+//@ loop 1 invariant forall(r, currentLineStart, rangepos(), text[r] != 10)
+//@ loop 1 invariant implies(currentMode == 0, forall(k, 0, currentLineStart, !nb(text, k)))
+//@ loop 1 invariant implies(rangepos() == len(text), currentLineStart == len(text))
+//@ loop 1 invariant implies(currentMode != 0, currentLineStart > 0)
 //@ loop 1 invariant tiles(lines, text, currentLineStart)
 //@ loop 1 invariant 0 <= currentLineStart && currentLineStart <= rangepos() && rangepos() <= len(text) && bytesConsumed == currentLineStart
 //@ loop 1 invariant 0 <= currentMode && currentMode <= 2 && implies(currentMode != 0, exists(i, 0, len(lines), !blank(lines[i])))
